@@ -19,6 +19,7 @@ mod fam_edit;
 mod fam_chg;
 mod fam_marks;
 mod fam_patch;
+mod fam_recon;
 mod gen;
 mod model;
 
@@ -53,6 +54,7 @@ fn main() {
         "chg" => fam_chg::run(&mut rng, &tier, out),
         "marks" => fam_marks::run(&mut rng, &tier, out),
         "patch" => fam_patch::run(&mut rng, &tier, out),
+        "recon" => fam_recon::run(&mut rng, &tier, out),
         _ => {
             eprintln!("unknown family {}", fam);
             std::process::exit(2);
